@@ -151,9 +151,13 @@ RESCALE_PLAN = [[("ON", 60, 0), ("TS", 3, 4), ("ON", 62, 0), ("OFF", 60, 0, Fals
 RESCALE_PLAN2 = [[("TS", 6, 8), ("ON", 60, 0), ("OFF", 60, 0, False)], [("ON", 61, 1), ("OFF", 61, 1, True)]]
 
 
-def q_rescale(tpb, dmax, plan, pname):
+def q_rescale(tpb, dmax, plan, pname, second_load=False):
     def fn(ctx):
         smf, exp = build_file(ctx, tpb, dmax, plan)
+        if second_load:
+            # one parsed file loaded more than once (e.g. with several groupings): every load sees the file, not the
+            # leftovers of the previous load
+            Sequence.sequences_load(midi_file=smf, track_indices=[[0]], meta_track_indices=[0])
         out = Sequence.sequences_load(midi_file=smf)
         ctx.must("one_sequence_per_track", len(out) == len(plan))
         conds = []
@@ -173,7 +177,7 @@ def q_rescale(tpb, dmax, plan, pname):
         ctx.must("nearest_tick_no_accumulation", and_(conds))
         ctx.must("integer_ticks", all(is_int(mm.time) for s in out for mm in raw_abs(s)))
         return [obs_abs(raw_abs(s)) for s in out]
-    return Query(f"rescale/{pname}/tpb{tpb}/d{dmax}", fn,
+    return Query(f"rescale/{pname}/tpb{tpb}/d{dmax}{'/second_load' if second_load else ''}", fn,
                  ["one_sequence_per_track", "every_event_loaded", "nearest_tick_no_accumulation", "integer_ticks"],
                  desc=f"rescaling from {tpb} ticks per beat")
 
@@ -188,6 +192,8 @@ def queries(tier, seed):
         qs.append(q_rescale(tpb, 200 if tpb >= 24 else 60, RESCALE_PLAN, "one"))
     for tpb in (12, 96):
         qs.append(q_rescale(tpb, 100, RESCALE_PLAN2, "two"))
+    for tpb in (48, 12):
+        qs.append(q_rescale(tpb, 60, RESCALE_PLAN2, "two", second_load=True))
     return qs
 
 
